@@ -45,6 +45,15 @@ CHECKS["C13"] = dict(technique="property-based testing (rapid): honest PVSS pipe
 CHECKS["C16"] = dict(technique="property-based testing (rapid): encrypt/decrypt round trips with high-entropy plaintexts, plaintext-block-in-clear detector, tamper families per ciphertext region",
   text="Generated messages (boundary lengths), keys, identities and recipient sets for ECIES (5 groups x 3 hashes), IBE CCA/CPA on both group assignments for every suite with a hashable identity group, and anonymous-set encryption (4 suites, sets of 1..6, every index): round trip, no 16-byte plaintext block at its offset in an accepted ciphertext, refusal of messages the scheme cannot protect, and errors (never panics, never another plaintext) for wrong keys/identities/indices and for bit flips, truncation and extension in every ciphertext region. Exploration only.",
   note="Trusted: rapid. ECIES/IBE nonces come from crypto/rand and cannot be injected (properties hold for every nonce). Known design weakness, tolerated: IBE-CCA's FO randomiser sigma has only |msg| bytes, so for messages < 16 bytes a wrong identity key can pass the check with probability 2^(-8|msg|) and then returns the same plaintext.", ref="4/C16")
+CHECKS["C12"] = dict(technique="property-based testing (rapid): generated delivery sequences of valid and injected invalid partial signatures per participant, against a set model of accepted partials and four independent verifiers",
+  text="Generated (n, t, distributed keys, message, per-participant subsets/orders of partial signatures with ten kinds of injected invalid partials): invalid ones are refused and never contribute, EnoughPartialSig matches the model count, Signature is refused below t and otherwise verifies with dss, eddsa, schnorr and crypto/ed25519 under the distributed key and is byte-identical at every participant. Exploration only.",
+  note="Trusted: crypto/ed25519, rapid. Distributed keys come from harness dealer polynomials (quick) and additionally from real Pedersen/Rabin DKG runs (thorough).", ref="4/C12")
+CHECKS["C14"] = dict(technique="property-based testing (rapid): grammar-based generation of Or-of-And-of-Rep predicate trees with shared variables; completeness + ten negative families; interactive deniable prover driven in lock step by a harness relay",
+  text="Generated predicate trees (up to 4 Or-branches x 4 Reps x 3 terms, shared scalar/base names), satisfying assignments, branch choices, optional truth of other branches, three groups: HashProve/HashVerify must accept; a falsified secret, any single bit flip, any truncation, replaced points/bases, dropped terms, reordered branches, another protocol name and spliced honest proofs must be rejected; the deniable clique protocol with 2..4 participants accepts honest proofs and rejects a participant with a falsified secret. Exploration only.",
+  note="Trusted: rapid. Soundness only against the listed families (no knowledge extractor); a 'falsified' assignment that still satisfies the statement (cancelling bases) is recognised and skipped.", ref="4/C14")
+CHECKS["C15"] = dict(technique="property-based testing (rapid): honest shuffles over generated permutations (all permutations enumerated for small k) + adversarial output families + a malicious prover forging transcripts against the verifier's equations",
+  text="Pair shuffle, Shuffle, SequencesShuffle, Biffle and SimpleShuffle are proven and verified on generated ElGamal vectors; 14 tamper families on outputs, parameters and proof bytes must be rejected; a harness-written malicious prover produces transcripts satisfying the pair-shuffle verifier's linear checks for outputs that are sums, scalar multiples or arbitrary invertible linear images of the input and must be rejected; all k! permutations are enumerated for k<=4 (thorough 5). Exploration only.",
+  note="Trusted: rapid; the forger relies on harness structs mirroring the proof message layout. Soundness is only claimed against the listed adversary families.", ref="4/C15")
 NOT_YET = {}
 
 def main():
